@@ -251,3 +251,56 @@ reg(
     "everything else in main); log text is not compared; in-process main(), so interpreter start-up and the console "
     "script wrapper are not covered.",
 )
+
+reg(
+    "C07",
+    "E4-enum",
+    "exploration",
+    "every subset of <= k feature deviations from a base hierarchy, compared with a reference flattener",
+    "A base library Leaf / Mid / Top (two instances of one class, three levels, equations over own and sub-component "
+    "variables) and every subset of <= 2 (quick) / <= 4 (thorough) of 34 feature deviations -- more instances, extends "
+    "chains of length 1-3, two extends, inherited class-typed components and initial equations, classes found in an "
+    "enclosing package, a nested class as component type, type aliases of Real / Integer / Boolean, arrays of scalars "
+    "(subscripts and a for-equation), parameter / constant / discrete / input / output on a variable at every level, "
+    "references to sub-sub-components, depth 4 -- are printed from our own hierarchy AST, flattened by the real "
+    "tree.flatten and compared with vf.ref.flat: exactly one flat variable per elementary leaf named by its dotted path, "
+    "its type, prefixes (input / output only at the top level), dimensions and declaration attributes, and the "
+    "multisets of equations and initial equations with every reference renamed to the flat name it denotes.",
+    "Equation order is not compared; a binding equation of a non-parameter variable counts as an equation on both sides; "
+    "flow variables outside connectors, arrays of components, redeclare / inner / outer and imports are outside the "
+    "alphabet; trusted base: the 150-line reference flattener vf/ref/flat.py.",
+)
+
+reg(
+    "C08",
+    "E4-enum",
+    "exploration",
+    "level subsets x spellings x scoped expressions of one modified item, compared with a reference flattener (outer wins)",
+    "One modified item (a parameter value; start, min, max, nominal, fixed, unit) 1-2 (thorough 1-3) component levels "
+    "deep, with every subset of <= 3 (thorough: all; <= 4 at depth 3) of the levels that can modify it -- type definition, "
+    "declaration, enclosing components of the declaring hierarchy, extends clause, enclosing component, the component "
+    "above it -- each present level carrying a value that identifies it; the expression of one level (or none) is a name "
+    "q that exists with a different value in every class, so the scope of resolution shows; every dot / parenthesis "
+    "spelling of the links of one level (thorough: two levels) with the others in a.x(start = v) style. A program is "
+    "either rejected by pymoca or its flat model equals the reference (winner = outermost level, expression resolved "
+    "where written) in every variable, attribute and equation; accepted members of a spelling group must agree.",
+    "Rejection (any exception) is accepted for every spelling, as the statement allows; redeclare, each, array-valued "
+    "and final modifications are outside the alphabet.",
+)
+
+reg(
+    "C09",
+    "E4-enum",
+    "exploration",
+    "every connect-clause sequence up to n over all ordered endpoint pairs; exact rational row-space equality with reference connection sets",
+    "Every sequence of <= 3 (quick; thorough 4) connect clauses over all ordered pairs of 5-7 endpoints (connectors of "
+    "sub-components = inside, top-level connectors = outside) with a (v, flow i) connector, <= 2 (3) clauses with two "
+    "potentials and two flows and with a parameter in the connector, and <= 2 (3) clauses on a model whose component "
+    "connects its own connector to a sub-component inside (the same connector inside at one level, outside at the "
+    "other). The flat equations are read as linear forms and compared by exact rational row-space equality with the "
+    "reference: union-find connection sets over (connector, inside/outside), potential equalities, flow sums with "
+    "inside + / outside -, zero for flows in no connection; the flat variables must be exactly the connector "
+    "variables with their prefixes (no connector symbol survives).",
+    "Scalar connector variables only (no arrays of connectors, no expandable / stream connectors); self-connections "
+    "connect(a, a) are outside the alphabet.",
+)
